@@ -683,11 +683,105 @@ def _helper_shrinks(ctx, fn, loop):
                                 f"never grows it, and the loop body does not grow {sorted(outer)}")
 
 
+def _drops_one(st):
+    """collection name when the statement removes one element: X.pop(..) / X.remove(..) / del X[i] /
+    X = X[:a] + X[a + 1:]"""
+    if isinstance(st, ast.Delete):
+        for t in st.targets:
+            if isinstance(t, ast.Subscript) and isinstance(t.value, ast.Name):
+                return t.value.id
+    if isinstance(st, (ast.Expr, ast.Assign)):
+        for x in ast.walk(st.value):
+            if isinstance(x, ast.Call) and isinstance(x.func, ast.Attribute) and x.func.attr in ("pop", "remove") \
+                    and isinstance(x.func.value, ast.Name):
+                return x.func.value.id
+    if isinstance(st, ast.Assign) and len(st.targets) == 1 and isinstance(st.targets[0], ast.Name) \
+            and isinstance(st.value, ast.BinOp) and isinstance(st.value.op, ast.Add):
+        X, l, r = st.targets[0].id, st.value.left, st.value.right
+        if isinstance(l, ast.Subscript) and isinstance(r, ast.Subscript) and pat.is_name(l.value, X) and pat.is_name(r.value, X) \
+                and isinstance(l.slice, ast.Slice) and isinstance(r.slice, ast.Slice) and l.slice.lower is None \
+                and r.slice.upper is None and l.slice.upper is not None and r.slice.lower is not None \
+                and l.slice.step is None and r.slice.step is None:
+            a, b = l.slice.upper, r.slice.lower
+            if isinstance(b, ast.BinOp) and isinstance(b.op, ast.Add) and pat.const_value(b.right) == 1 \
+                    and ast.dump(b.left) == ast.dump(a):
+                return X
+    return None
+
+
+def _keeps_size(st, X):
+    """X = X[:i] + [e] + X[i + 1:]  (replaces one element) / X[i] = e"""
+    if isinstance(st, ast.Assign) and len(st.targets) == 1 and isinstance(st.targets[0], ast.Subscript) \
+            and pat.is_name(st.targets[0].value, X) and not isinstance(st.targets[0].slice, ast.Slice):
+        return True
+    if isinstance(st, ast.Assign) and len(st.targets) == 1 and pat.is_name(st.targets[0], X) \
+            and isinstance(st.value, ast.BinOp) and isinstance(st.value.op, ast.Add) \
+            and isinstance(st.value.left, ast.BinOp) and isinstance(st.value.left.op, ast.Add):
+        l, m, r = st.value.left.left, st.value.left.right, st.value.right
+        if isinstance(l, ast.Subscript) and isinstance(r, ast.Subscript) and pat.is_name(l.value, X) and pat.is_name(r.value, X) \
+                and isinstance(m, ast.List) and len(m.elts) == 1 and isinstance(l.slice, ast.Slice) and isinstance(r.slice, ast.Slice) \
+                and l.slice.lower is None and r.slice.upper is None and l.slice.upper is not None and r.slice.lower is not None:
+            a, b = l.slice.upper, r.slice.lower
+            return isinstance(b, ast.BinOp) and isinstance(b.op, ast.Add) and pat.const_value(b.right) == 1 \
+                and ast.dump(b.left) == ast.dump(a)
+    return False
+
+
+def _flag_loop(loop):
+    """`while flag:` whose body first clears the flag and sets it again only right after one element was removed from a
+    collection that the loop never grows: the collection shrinks at every iteration but the last"""
+    test = loop.test
+    if not isinstance(test, ast.Name) or not loop.body:
+        return None
+    flag = test.id
+    first = loop.body[0]
+    if not (isinstance(first, ast.Assign) and len(first.targets) == 1 and pat.is_name(first.targets[0], flag)
+            and isinstance(first.value, ast.Constant) and first.value.value is False):
+        return None
+    colls = set()
+
+    def blocks(body):
+        yield body
+        for st in body:
+            for f in ("body", "orelse", "finalbody"):
+                sub = getattr(st, f, None)
+                if isinstance(sub, list) and sub and isinstance(sub[0], ast.stmt):
+                    yield from blocks(sub)
+            for h in getattr(st, "handlers", []):
+                yield from blocks(h.body)
+    for body in blocks(loop.body):
+        for i, st in enumerate(body):
+            if isinstance(st, ast.Assign) and any(pat.is_name(t, flag) for t in st.targets) and st is not first:
+                if not (isinstance(st.value, ast.Constant) and st.value.value is True):
+                    return None
+                dropped = [_drops_one(b) for b in body[:i]]
+                dropped = [d for d in dropped if d]
+                if not dropped:
+                    return None
+                colls.add(dropped[-1])
+    if not colls:
+        return None
+    # the collections are never grown or rebound otherwise inside the loop
+    for X in colls:
+        for n in ast.walk(loop):
+            if isinstance(n, ast.Call) and isinstance(n.func, ast.Attribute) and n.func.attr in GROW and pat.root_name(n.func.value) == X:
+                return None
+            if isinstance(n, ast.AugAssign) and pat.root_name(n.target) == X:
+                return None
+            if isinstance(n, ast.Assign) and any(pat.is_name(t, X) for t in n.targets) \
+                    and not (_drops_one(n) == X or _keeps_size(n, X)):
+                return None
+    return "flag/shrinking", f"the flag `{flag}` is set again only right after an element of {sorted(colls)} was removed"
+
+
 def loop_witness(fn, loop, ctx=None):
     """(kind, text) or (None, reason)"""
     hs = _helper_shrinks(ctx, fn, loop)
     if hs:
         return hs
+    fl = _flag_loop(loop)
+    if fl:
+        return fl
     test = loop.test
     names = {n.id for n in ast.walk(test) if isinstance(n, ast.Name)}
     # collections measured by len() / membership in the test
